@@ -1158,7 +1158,7 @@ def noise_names():
 
 
 FALLBACK_NOISE = {"____id_pack__", "____conn__", "__class__", "__name__", "__module__", "__mro__", "__dict__", "__bases__", "keys",
-                  "_rpyc_getattr", "_rpyc_setattr", "_rpyc_delattr", "on_disconnect", "__qualname__"}
+                  "_rpyc_getattr", "_rpyc_setattr", "_rpyc_delattr", "on_disconnect", "__qualname__", "__class_getitem__"}
 
 
 def allowed_name(n):
@@ -1291,9 +1291,17 @@ def oracle(ctx, sess, case, k, msg, obs, noise):
                 peer_name = set(names)
         except Exception:
             peer_name, name_targets = None, set()
-    for idx, what in obs["log"]:
+    # ... unless the object's own _rpyc_*attr hook served the name (C06: the object decides): whatever the implementation looks up on
+    # the target AFTER its hook ran is bookkeeping on the hook's result (get_id_pack / isinstance when the result is boxed, dict(kwargs)
+    # when it is the same object again); a lookup of the peer's name BEFORE any hook entry is the request's own by-name access
+    hooked_at = {}
+    for pos, (idx, what) in enumerate(obs["log"]):
+        if what.startswith("hook:") and idx in name_targets and idx not in hooked_at:
+            hooked_at[idx] = pos
+    for pos, (idx, what) in enumerate(obs["log"]):
         kind, _, nm = what.partition(":")
-        if kind == "getattr" and nm in noise and peer_name and nm in peer_name and idx in name_targets and not allowed_name(nm):
+        if kind == "getattr" and nm in noise and peer_name and nm in peer_name and idx in name_targets and not allowed_name(nm) \
+                and not (idx in hooked_at and pos > hooked_at[idx]):
             bad("attr-policy-bypass:%s" % hname, "the name the peer sent (one the implementation also uses itself) was looked up on the target object",
                 observed=(idx, what), expected="AttributeError before the object is asked for that name")
         if kind in ("setattr", "delattr"):
@@ -1723,6 +1731,7 @@ def special_cases(r):
             req("INSTANCECHECK", [clsref, V(T(("foo.Cached", 7, 0)))]),
             req("PING", [RR(T(("foo.Cached", 7, 0)))], answers=[["reply", V(T(()))]]),
             req("INSTANCECHECK", [clsref, V(T(("foo.Cached", 7, 5)))]),
+            req("INSTANCECHECK", [clsref, clsref]),          # the handler subscripts its second argument: a class is asked for __class_getitem__
             req("PING", [RR(T(("foo.Cached", 7, 0)))]),
             req("PING", [RR(T((HOOK_MOD + ".Lazy", 3, 0)))], answers=[["reply", V(T(()))]]),
             req("PING", [RR(T(("concurrent.futures.ProcessPoolExecutor", 3, 77)))], answers=[["reply", V(T(()))]])]
